@@ -314,6 +314,73 @@ def wide_parse_case(v, present, N, opts):
     return dict(obs=o, asserts=asserts, facts=facts)
 
 
+# ------------------------------------------------------------------ parsing options of a SeriesSchema / schema-level dtype (C03 C04 C06)
+def series_parse_case(v, N, opts):
+    """SeriesSchema with coerce / default / drop_invalid_rows (and their pairs); opts: coerce, default, drop, lazy"""
+    src = "int" if opts.get("coerce") else "float"
+    lazy = bool(opts.get("lazy")) or bool(opts.get("drop"))
+    ser = v.series("x", src, N, sname="s", labels="l", distinct_labels=bool(opts.get("drop")))
+    snap = H.snapshot(ser)
+    lo = v.int("lo")
+    nullable, unique = v.bool("nullable"), v.bool("unique")
+    default = v.int("dflt") if opts.get("default") else None
+
+    def mk(parsing):
+        return pa.SeriesSchema(float, Check.ge(lo), nullable=nullable, unique=unique, name="s", coerce=parsing and bool(opts.get("coerce")),
+                               default=default if parsing else None, drop_invalid_rows=parsing and bool(opts.get("drop")))
+
+    schema = mk(True)
+    o = H.outcome(lambda: schema.validate(ser, lazy=lazy))
+    asserts = [("channel", v.holds(channel_ok(o))), ("input_unchanged", H.equal_to_snapshot(v, ser, snap))]
+    facts = dict(kind=o["kind"], reason=o.get("reason"), reasons=o.get("reasons"))
+    if o["kind"] == "accept":
+        out = o["out"]
+        asserts.append(("kind_preserved", v.holds(is_series(out))))
+        if is_series(out):
+            osnap = H.snapshot(out)
+            o2 = H.outcome(lambda: mk(False).validate(out))
+            facts["revalidate_stripped"] = o2["kind"] + (":" + str(o2.get("reason")) if o2.get("reason") else "")
+            asserts.append(("fixpoint_conforms", v.holds(o2["kind"] == "accept")))
+            o3 = H.outcome(lambda: schema.validate(out, lazy=lazy))
+            asserts.append(("fixpoint_accepts_again", v.holds(o3["kind"] == "accept")))
+            if o3["kind"] == "accept":
+                asserts.append(("fixpoint_identity", H.equal_to_snapshot(v, o3["out"], osnap)))
+    return dict(obs=o, asserts=asserts, facts=facts)
+
+
+def schema_dtype_case(v, N, opts):
+    """DataFrameSchema(dtype=float[, coerce=True]) over int/float columns: the frame-level dtype overrides the column dtypes"""
+    lazy = bool(opts.get("lazy"))
+    coerce = bool(opts.get("coerce"))
+    df = v.frame([("a", "int", False), ("b", "float")], N, labels="l")
+    snap = H.snapshot(df)
+    lo = v.int("lo")
+
+    def mk(parsing):
+        return pa.DataFrameSchema({"a": pa.Column(int, Check.ge(lo)), "b": pa.Column(float, nullable=True)}, dtype=float, coerce=parsing and coerce)
+
+    schema = mk(True)
+    o = H.outcome(lambda: schema.validate(df, lazy=lazy))
+    asserts = [("channel", v.holds(channel_ok(o))), ("input_unchanged", H.equal_to_snapshot(v, df, snap))]
+    xa, _ = v.cells("a_", "int", N, False)
+    # documented: the dataframe-level dtype applies to every column; without coercion an int column does not conform
+    spec = z3.And(z3.BoolVal(coerce), zand(x >= v.z(lo) for x in xa))
+    asserts.append(("verdict", v.iff(o["kind"] == "accept", spec)))
+    facts = dict(kind=o["kind"], reason=o.get("reason"), reasons=o.get("reasons"))
+    if o["kind"] == "accept" and is_frame(o["out"]):
+        out = o["out"]
+        asserts.append(("kind_preserved", v.holds(True)))
+        osnap = H.snapshot(out)
+        o2 = H.outcome(lambda: mk(False).validate(out))
+        facts["revalidate_stripped"] = o2["kind"] + (":" + str(o2.get("reason")) if o2.get("reason") else "")
+        asserts.append(("fixpoint_conforms", v.holds(o2["kind"] == "accept")))
+        o3 = H.outcome(lambda: schema.validate(out, lazy=lazy))
+        asserts.append(("fixpoint_accepts_again", v.holds(o3["kind"] == "accept")))
+        if o3["kind"] == "accept":
+            asserts.append(("fixpoint_identity", H.equal_to_snapshot(v, o3["out"], osnap)))
+    return dict(obs=o, asserts=asserts, facts=facts)
+
+
 # ------------------------------------------------------------------ SeriesSchema with an index schema
 def series_index_case(v, N, lazy, val_coerce, idx_coerce):
     """data: int Series with int labels; schema value dtype float when val_coerce (int->float), index dtype float
@@ -428,6 +495,12 @@ def standard_cases(tier):
     for shape in ("rowwise", "scalar", "element_wise", "two_checks", "groupby"):
         for lazy in (False, True):
             ts.append((f"W/{shape}/lazy={int(lazy)}/N={N}", wide_case, (shape, N, dict(lazy=lazy))))
+    for c in (dict(coerce=True), dict(default=True), dict(drop=True), dict(coerce=True, default=True), dict(coerce=True, drop=True), dict(default=True, drop=True)):
+        for lazy in ((False, True) if not c.get("drop") else (True,)):
+            ts.append(("SP/" + "+".join(c) + f"/lazy={int(lazy)}/N={N}", series_parse_case, (N, dict(c, lazy=lazy))))
+    for coerce in (False, True):
+        for lazy in (False, True):
+            ts.append((f"DT/coerce={int(coerce)}/lazy={int(lazy)}/N={N}", schema_dtype_case, (N, dict(coerce=coerce, lazy=lazy))))
     # empty and one-row objects of representative shapes (reductions over nothing, no duplicates possible, head/tail of nothing)
     for n in (0, 1):
         for lazy in (False, True):
